@@ -78,6 +78,20 @@ def r2(ctx, prog, eng):
     ws = q.assigns(fr, 'has_commit_run_req_')
     ctx.ob('C01.R2', '%s|flag-reset' % fr.name, any(fr.s(fr.strip_casts(r)).get('v') is False for a, r in ws),
            'finishRunRequest clears has_commit_run_req_', where=fr.loc(fr.body))
+    # token/acknowledgement pairing at every site that empties the eventfd: "the eventfd is empty" and "no request is pending" change together
+    n_ack = 0
+    for g in prog.methods_of(CL):
+        for st in g.stmts:
+            if st and is_ack(g, st):
+                n_ack += 1
+                rs_ = [a for a, r in q.assigns(g, 'has_commit_run_req_') if g.s(g.strip_casts(r)).get('v') is False]
+                ok = bool(rs_) and q.must_follow(g, q.pt(g, st), q.pts(g, rs_))
+                ctx.ob('C01.R2', '%s|ack-resets-token@%s' % (g.name, g.loc(st['i']).split(':')[-1]), ok,
+                       'the eventfd read is followed by has_commit_run_req_ = false on every path' if ok else
+                       '%s() empties the eventfd but a path leaves with has_commit_run_req_ still set: every later runInLoop()/run() believes a wake-up is pending, '
+                       'skips the eventfd write, and its task is not run until something else wakes the loop' % g.short, where=g.loc(st['i']))
+    if n_ack < 1:
+        raise AnalysisBroken('no read of run_event_fd_ found in CommonLoop')
 
 
 def _cond_is(f, cond, field, want_nonnull=None):
